@@ -8,7 +8,7 @@ BUDGET = {"quick": 5000, "thorough": 120000}
 LEVEL_TEXT = ("Lean theorems for every message and every colour table: C16_lossless (rendering minus escape codes = "
               "message), C16_colorfy_no_panic (Go's slice indexing made explicit never goes out of range), "
               "C16_mapr_first_no_panic; tied to the code by the regenerated default colour table and a differential "
-              "run of the real brush.Colorfy and the three client handlers' Write")
+              "run of the real brush.Colorfy and the three client handlers' Write; c16.table: the result table a mapreduce client prints (GroupSet.Result) with non-ASCII, wide, long, empty and hostile values, colours off and on")
 TRUSTED = ["Lean 4 kernel", "axioms: propext, Quot.sound, Classical.choice (at most)", "fact extractor (colour constants, default colour table)",
            "overlay harness + dtmodel driver + this diff",
            "escape codes are removed at the level of rendered segments in the theorem; that a byte-level SGR stripper agrees is checked "
